@@ -59,7 +59,8 @@ ASSUMPTIONS = ["exact complex arithmetic in the theorems; implementation compare
                "QR: input unitaries without zero entries and whose Givens sweep meets no exactly-zero pivot / sub-pivot"]
 RULE = ("tie: (n, decomposition, iso, family) shapes with the real kernel outputs as tape; (n,row,col) QR rotations, all pairs; "
         "oracle: distinct (n, family, seed, decomposition, iso, apply_a2) on which the operator was compared entry-by-entry; "
-        "non-trivial = n>=2")
+        "non-trivial = n>=2; input-diversity cases: (matrix family, global phase, element type, call form, use of the result, "
+        "decomposition, iso, apply_a2) specs at n = 1..4 and direct ucr calls (angle list, element type, call form) at k = 0..3")
 DRIVER = "Drivers/C02.lean"
 
 import framework  # noqa: E402  (puts REPO on sys.path)
@@ -555,6 +556,30 @@ def job_key(job):
     return f"unitary:{dec}:a2={int(a2)}:iso={iso}:n={n}:{fam}:{seed & 0xffff:x}"
 
 
+def measure_plain(res, circ, rec, u, n, dec, iso):
+    """Fill `res` with the property's observable of one synthesis: max |Operator(circ) - U| over the leading columns, the
+    UCGate diagnosis on the csd failure path, the kernel specifications of the recorded calls and the A.2 decision."""
+    import numpy as np
+    from qiskit.quantum_info import Operator
+    op = Operator(circ).data
+    cols = 2 ** (n - iso) if dec != "qr" else 2 ** n
+    res["err"] = float(np.abs(op[:, :cols] - u[:, :cols]).max())
+    if dec == "csd" and res["err"] > TOL:
+        # is qiskit's UCGate kernel the culprit?  (diagnosis on the failure path only)
+        lists = [r[2] for r in rec if r[0] == "_unitary" and r[2][0].shape == (2, 2)]
+        try:
+            res["ucg_err"] = max([ucgate_error(bl) for bl in lists] or [0.0])
+            fixed = operator_with_ideal_ucgates(circ, lists, n)
+            res["err_ideal_ucg"] = float(np.abs(fixed[:, :cols] - u[:, :cols]).max())
+        except Exception as e:  # noqa: BLE001
+            res["ucg_diag_exc"] = f"{type(e).__name__}: {e}"
+    res["cs_err"], res["eig_err"] = kernel_spec_errors(rec)
+    res["a2_called"] = any(r[0] == "a2" for r in rec)
+    res["a2_raised"] = any(r[0] == "a2-raised" for r in rec)
+    res["n_cossin"] = sum(1 for r in rec if r[0] == "cossin")
+    res["n_demux"] = sum(1 for r in rec if r[0] == "demux")
+
+
 def run_job(job, disable_a2=False):
     """('unitary', n, family, seed, dec, iso, a2) -> result dict (never raises)."""
     sys.setrecursionlimit(10000)
@@ -575,23 +600,7 @@ def run_job(job, disable_a2=False):
             res["raised"] = f"{type(e).__name__}: {e}"
             res["tb"] = traceback.format_exc()[-800:]
             return res
-        op = Operator(circ).data
-        cols = 2 ** (n - iso) if dec != "qr" else 2 ** n
-        res["err"] = float(np.abs(op[:, :cols] - u[:, :cols]).max())
-        if dec == "csd" and res["err"] > TOL:
-            # is qiskit's UCGate kernel the culprit?  (diagnosis on the failure path only)
-            lists = [r[2] for r in rec if r[0] == "_unitary" and r[2][0].shape == (2, 2)]
-            try:
-                res["ucg_err"] = max([ucgate_error(bl) for bl in lists] or [0.0])
-                fixed = operator_with_ideal_ucgates(circ, lists, n)
-                res["err_ideal_ucg"] = float(np.abs(fixed[:, :cols] - u[:, :cols]).max())
-            except Exception as e:  # noqa: BLE001
-                res["ucg_diag_exc"] = f"{type(e).__name__}: {e}"
-        res["cs_err"], res["eig_err"] = kernel_spec_errors(rec)
-        res["a2_called"] = any(r[0] == "a2" for r in rec)
-        res["a2_raised"] = any(r[0] == "a2-raised" for r in rec)
-        res["n_cossin"] = sum(1 for r in rec if r[0] == "cossin")
-        res["n_demux"] = sum(1 for r in rec if r[0] == "demux")
+        measure_plain(res, circ, rec, u, n, dec, iso)
         return res
     except Exception:  # noqa: BLE001  harness trouble must not look like a violation
         import traceback
@@ -599,7 +608,14 @@ def run_job(job, disable_a2=False):
 
 
 def job_weight(job):
+    if isinstance(job, dict):      # input-diversity spec (div_eval)
+        return 4 ** job["n"] * (40 if job["dec"] == "qr" else 1) * (3 if job.get("use", "plain") != "plain" else 1)
     return 4 ** job[1] * (40 if job[4] == "qr" else 1)
+
+
+def run_any(job):
+    """pool entry: structured-sweep tuples go to run_job, input-diversity specs (dicts) to div_eval."""
+    return div_eval(job) if isinstance(job, dict) else run_job(job)
 
 
 def run_jobs(jobs):
@@ -609,12 +625,12 @@ def run_jobs(jobs):
     from concurrent.futures import ProcessPoolExecutor
     workers = max(1, min(14, (os.cpu_count() or 2) - 1, len(jobs)))
     if workers == 1 or len(jobs) < 4:
-        return [run_job(j) for j in jobs]
+        return [run_any(j) for j in jobs]
     for k in ("OMP_NUM_THREADS", "OPENBLAS_NUM_THREADS", "RAYON_NUM_THREADS", "MKL_NUM_THREADS"):
         os.environ[k] = "1"
     order = sorted(range(len(jobs)), key=lambda i: -job_weight(jobs[i]))
     with ProcessPoolExecutor(max_workers=workers, mp_context=mp.get_context("spawn")) as ex:
-        res = list(ex.map(run_job, [jobs[i] for i in order], chunksize=1))
+        res = list(ex.map(run_any, [jobs[i] for i in order], chunksize=1))
     out = [None] * len(jobs)
     for i, r in zip(order, res):
         out[i] = r
@@ -630,6 +646,31 @@ def replay_dict(job, extra=None):
         d["U"] = [[[float(z.real), float(z.imag)] for z in row] for row in make_unitary(fam, n, seed)]
     d.update(extra or {})
     return d
+
+
+def classify_kernel(ctx, res, dec, a2, iso, n, tag, rerun_without_a2, rep):
+    """The two recorded qiskit-kernel phenomena, for every caller (structured sweep, boundary and input-diversity cases):
+    (1) a deviation <= 1e-4 on the qsd/A.2 path that vanishes when the run is repeated with qiskit's pass disabled
+    (`rerun_without_a2()` -> result dict with 'err') is `unitary-a2-precision:...`; (2) a csd deviation that vanishes when
+    every UCGate of the circuit is replaced by its ideal block-diagonal matrix while one of the UCGates deviates from its
+    own block list (`ucg_err`, `err_ideal_ucg` of measure_plain) is `unitary-ucgate-kernel:...`.  True = classified (the
+    failure was emitted under the known key); False = `res['err']` is something else (or fine)."""
+    if res["err"] > TOL and dec == "qsd" and a2 and res["err"] <= 1e-4:
+        # small loss only on the A.2 path?  re-run with qiskit's pass disabled (unitary() then takes its own fallback)
+        res2 = rerun_without_a2()
+        if res2.get("err", 1.0) <= TOL:
+            defer_fail(ctx, f"unitary-a2-precision:iso={iso}:n={n}:{tag}",
+                     f"precision loss on the A.2 path only (qiskit two-qubit re-synthesis): max |Operator - U| = {res['err']:.3e} "
+                     f"with apply_a2=True, {res2['err']:.1e} with the pass disabled",
+                     dict(rep, observed_err=res["err"], err_without_a2=res2["err"]))
+            return True
+    if res["err"] > TOL and dec == "csd" and res.get("ucg_err", 0.0) > TOL and res.get("err_ideal_ucg", 1.0) <= TOL:
+        ctx.fail(f"unitary-ucgate-kernel:iso={iso}:n={n}:{tag}",
+                 f"qiskit UCGate kernel synthesises a wrong operator: a UCGate of this circuit deviates by {res['ucg_err']:.3e} from "
+                 f"its block-diagonal matrix; max |Operator - U| = {res['err']:.3e}, but {res['err_ideal_ucg']:.1e} when every UCGate is "
+                 "replaced by its ideal matrix", dict(rep, observed_err=res["err"], ucgate_err=res["ucg_err"]))
+        return True
+    return False
 
 
 def judge(ctx, job, res):
@@ -658,20 +699,7 @@ def judge(ctx, job, res):
         ctx.count("a2-fallback-taken")
     if res["a2_called"] != (dec == "qsd" and a2):
         ctx.fail(f"a2-decision:{dec}:a2={int(a2)}", f"_apply_a2 called={res['a2_called']}", replay_dict(job))
-    if res["err"] > TOL and dec == "qsd" and a2 and res["err"] <= 1e-4:
-        # small loss only on the A.2 path?  re-run with qiskit's pass disabled (unitary() then takes its own fallback)
-        res2 = run_job(job, disable_a2=True)
-        if res2.get("err", 1.0) <= TOL:
-            defer_fail(ctx, f"unitary-a2-precision:iso={iso}:n={n}:{fam}",
-                     f"precision loss on the A.2 path only (qiskit two-qubit re-synthesis): max |Operator - U| = {res['err']:.3e} "
-                     f"with apply_a2=True, {res2['err']:.1e} with the pass disabled",
-                     replay_dict(job, {"observed_err": res["err"], "err_without_a2": res2["err"]}))
-            return
-    if res["err"] > TOL and dec == "csd" and res.get("ucg_err", 0.0) > TOL and res.get("err_ideal_ucg", 1.0) <= TOL:
-        ctx.fail(f"unitary-ucgate-kernel:iso={iso}:n={n}:{fam}",
-                 f"qiskit UCGate kernel synthesises a wrong operator: a UCGate of this circuit deviates by {res['ucg_err']:.3e} from "
-                 f"its block-diagonal matrix; max |Operator - U| = {res['err']:.3e}, but {res['err_ideal_ucg']:.1e} when every UCGate is "
-                 "replaced by its ideal matrix", replay_dict(job, {"observed_err": res["err"], "ucgate_err": res["ucg_err"]}))
+    if classify_kernel(ctx, res, dec, a2, iso, n, fam, lambda: run_job(job, disable_a2=True), replay_dict(job)):
         return
     if res["err"] > TOL:
         ctx.fail(key, f"max |Operator(circuit) - U| over the leading {2 ** (n - iso) if dec != 'qr' else 2 ** n} columns = {res['err']:.3e}",
@@ -861,19 +889,922 @@ def probe_call_forms(ctx):
             ctx.ok(key, nontrivial=n >= 2, sample={"n": n, "family": fam, "dec": dec, "iso": iso, "form": form, "err": err})
 
 
+# ---------------------------------------------------------------------------------------------------
+# input-diversity pass: the FORM of otherwise ordinary inputs (element types, scale / phase structure, call forms, sizes)
+# ---------------------------------------------------------------------------------------------------
+#
+# form x entry point -> where generated                                         (U = unitary(), B = build_unitary(), R = ucr())
+#
+#  1 element types
+#    nested Python list of ints / floats / complex, mixed int+complex .... U   div_specs_etypes: etype list, mixedlist
+#    tuple of tuples, list of 1-D numpy rows, list of lists of numpy scalars U   etype tuple, rows, npscalars
+#    int64 ndarray (permutation, +-1 diagonal, CNOT, SWAP, X(x)I, [[0,-1],[1,0]](x)I) U, B   etype int64 (B: call build-*)
+#    float64 REAL dtype (orthogonal, Hadamard-type, -H, det = -1) ............ U, B   etype f64 (qsd / csd / qr)
+#    float16 / float32 / complex64 (exactly representable ones at 1e-7 at every n / decomposition / iso / A.2 - unitary()
+#    promotes them to double; inexact ones by the reduced-precision rule) ... U   etype f16, f32, c64
+#    complex128 with exactly zero imaginary parts ........................... U   every real matrix in etype c128
+#    negative zeros (-0.0 entries, (-0.0-0.0j)) ............................. U   etype negzero-f64, negzero-c128
+#    np.matrix, Fortran order, read-only array, strided view ................ U   etype npmatrix, fortran, readonly, strided
+#    caller's object untouched afterwards (bytes, dtype, element types) ..... U, R every case (fingerprint before / after)
+#    angle lists: Python ints, tuple, int64 / float32 / float64 ndarray, lists of numpy scalars (as unitary.py's
+#    `list(2 * theta)`, also float32 scalars as a complex64 matrix produces) R   div_ucr_specs
+#  2 scale structure
+#    exp(i eps H), P exp(i eps H) for eps = 1e-3 .. 1e-6 .................... U   matrix near_id@eps, near_perm@eps
+#    one non-trivial block (top-left / bottom-right), U (+) I on one sub-tree U   block_tl, block_br, subtree
+#    all-equal moduli (DFT, Hadamard, complex Hadamard) ..................... U   dft, hadamard, complex_hadamard
+#    exactly repeated entries / eigenvalues (repair branch of _compute_gates) U   rep_eig, tensor_h_lsb, hadamard
+#    sparse monomial matrices (permutation x phases) ........................ U   monomial, monomial_pmi, perm, yz
+#  3 sign / phase structure
+#    global phase -1, i, -i, e^{it} times every structured family ........... U   phase tag of every spec
+#    per-entry phases exactly +-1, +-i; negative real entries, zero imag .... U   pm1, s_diag, yz, monomial_pmi, phase -1 on ints
+#    CS angles exactly 0 / pi/4 / pi/2 / mixed, det = -1 real orthogonal .... U   cs@0, cs@pi4, anti_block, iy_top, cs@mixed, real_det_m1
+#    angles >= 2pi, <= -2pi, exactly +-2pi, +-4pi, Walsh partial sums 0 / 2pi R   div_ucr_specs (rotations are 4pi-periodic)
+#  4 call forms
+#    decomposition / iso / apply_a2 positional, keyword, keyword in reverse order, mixed, only the non-default ones,
+#    every (dec, iso, a2) at n = 2, 3 ........................................ U, B div_specs_calls
+#    r_gate / angles / c_gate / last_control positional, keyword, defaults .. R   div_ucr_specs
+#    result via to_gate / to_instruction / compose / append on a permuted non-contiguous qubit list of a larger host
+#    (int indices, Qubit objects, register in a multi-register host), the same gate object appended twice, copy() then
+#    both used, inverse() (= U^dagger), same matrix object synthesised twice  U   div_specs_uses
+#  5 sizes: n = 1, 2 (no recursion), 3 (first recursion) for every form, n = 4 once per form family; k = 0..3 for R
+#
+# Tie: every plain-use case with decomposition qsd / csd registers the recursion shape of the circuit build_unitary returned
+# for the converted input (`build` op: wires, 2 theta through ucr, -2 arg d, kernel-call count) and the A.2 decision (`a2`
+# op); whole QR circuits are tied through the recorded (row, col) sequence (`qr` op); direct ucr calls are tied gate by
+# gate through the C13 driver (Model/Ucr.lean is the model Model/Unitary.lean itself uses).  Element type, call form,
+# host placement, inverse and input preservation are outside the model: oracle only.
+#
+# Oracle rules: semantically identical forms -> 1e-7 on the operator (global phase included), routed through
+# classify_kernel first (A.2 precision / UCGate kernel land on their recorded keys).  float16 / float32 / complex64: the value
+# handed in is the up-cast array; when that is exactly unitary (entries 0, +-1, +-0.5, +-0.25, +-i ...) it is an ordinary valid
+# input at every n and decomposition (unitary() promotes reduced-precision matrices to double): 1e-7 rule, a rejection or any
+# exception is a failure `unitary-raises:...:div:...:<etype>:...`.  Otherwise (rounded entries: the up-cast matrix is not
+# unitary to ~1e-7 / ~1e-3) ValueError (unitary()'s documented rejection; also a qiskit constructor's "not unitary" verdict on a
+# factor of it) or an error <= 1e-5 is accepted, anything above 1e-3 and every other exception type is a failure.
+
+DIV_INT_MATS = ["perm", "pm1", "cnot", "swap", "x_top", "x_bot", "iy_top"]
+DIV_ETYPES = ["c128", "list", "mixedlist", "tuple", "rows", "npscalars", "int64", "f64", "f16", "f32", "c64", "negzero-f64",
+              "negzero-c128", "npmatrix", "fortran", "readonly", "strided"]
+DIV_CONFIGS = [("qsd", True), ("qsd", False), ("csd", False)]
+DIV_REDUCED = ("f16", "f32", "c64")
+
+
+def div_matrix(name, n, seed):
+    """complex128 unitary of the structured family `name` (parameter after '@')."""
+    import numpy as np
+    rng = np.random.default_rng(seed)
+    dim = 2 ** n
+    base, _, par = name.partition("@")
+    x = np.array([[0, 1], [1, 0]], dtype=complex)
+    y = np.array([[0, -1j], [1j, 0]])
+    z = np.diag([1, -1]).astype(complex)
+    h = np.array([[1, 1], [1, -1]], dtype=complex) / math.sqrt(2)
+    eye = np.eye(dim, dtype=complex)
+
+    def kron(ms):
+        m = np.ones((1, 1), dtype=complex)
+        for f in ms:
+            m = np.kron(m, f)
+        return m
+
+    def perm():
+        while True:
+            p = rng.permutation(dim)
+            if dim == 1 or any(p[i] != i for i in range(dim)):
+                return eye[p]
+
+    def blockdiag(a, b):
+        m = np.zeros((dim, dim), dtype=complex)
+        m[: len(a), : len(a)] = a
+        m[len(a):, len(a):] = b
+        return m
+
+    def herm_exp(eps):
+        g = rng.standard_normal((dim, dim)) + 1j * rng.standard_normal((dim, dim))
+        w, v = np.linalg.eigh(g + g.conj().T)
+        w = w / np.abs(w).max()
+        return (v * np.exp(1j * eps * w)) @ v.conj().T
+
+    if base == "perm":
+        return perm()
+    if base == "pm1":
+        d = rng.choice([1.0, -1.0], dim)
+        d[int(rng.integers(dim))] = -1.0
+        return np.diag(d).astype(complex)
+    if base == "cnot":
+        return x if n == 1 else np.kron(np.eye(dim // 4), eye[:4, :4][[0, 3, 2, 1]])
+    if base == "swap":
+        return x if n == 1 else np.kron(np.eye(dim // 4), eye[:4, :4][[0, 2, 1, 3]])
+    if base == "x_top":
+        return np.kron(x, np.eye(dim // 2))
+    if base == "x_bot":
+        return np.kron(np.eye(dim // 2), x)
+    if base == "iy_top":      # [[0,-1],[1,0]] (x) I: cosine-sine angles exactly pi/2, integer entries, one of them negative
+        return np.kron(np.array([[0, -1], [1, 0]], dtype=complex), np.eye(dim // 2))
+    if base == "s_diag":
+        d = rng.choice(np.array([1, -1, 1j, -1j]), dim)
+        d[int(rng.integers(dim))] = 1j
+        return np.diag(d)
+    if base == "yz":
+        return kron([y if (q + seed) % 2 == 0 else z for q in range(n)])
+    if base == "monomial":
+        return perm() @ np.diag(np.exp(1j * rng.uniform(0, 2 * np.pi, dim)))
+    if base == "monomial_pmi":
+        return perm() @ np.diag(rng.choice(np.array([1, -1, 1j, -1j]), dim))
+    if base == "hadamard":
+        return kron([h] * n)
+    if base == "complex_hadamard":
+        return kron([np.array([[1, 1j], [1j, 1]]) / math.sqrt(2)] + [h] * (n - 1))
+    if base == "dft":
+        w = np.exp(2j * np.pi / dim)
+        return np.array([[w ** (i * j) for j in range(dim)] for i in range(dim)]) / math.sqrt(dim)
+    if base == "near_id":
+        return herm_exp(float(par))
+    if base == "near_perm":
+        return perm() @ herm_exp(float(par))
+    if base == "block_tl":
+        return blockdiag(haar(rng, dim // 2), np.eye(dim // 2))
+    if base == "block_br":
+        return blockdiag(np.eye(dim // 2), haar(rng, dim // 2))
+    if base == "subtree":
+        return blockdiag(haar(rng, 2), np.eye(dim - 2)) if n > 1 else haar(rng, 2)
+    if base == "rep_eig":
+        return np.kron(haar(rng, dim // 2), np.eye(2))
+    if base == "tensor_h_lsb":
+        return np.kron(haar(rng, dim // 2), h)
+    if base == "haar":
+        return haar(rng, dim)
+    if base == "real_orth":
+        return haar_real(rng, dim).astype(complex)
+    if base == "real_det_m1":
+        q = haar_real(rng, dim)
+        if np.linalg.det(q) > 0:
+            q[:, 0] = -q[:, 0]
+        return q.astype(complex)
+    if base == "anti_block":   # [[0, -A], [B, 0]]: every cosine-sine angle exactly pi/2
+        m = np.zeros((dim, dim), dtype=complex)
+        m[: dim // 2, dim // 2:] = -haar(rng, dim // 2)
+        m[dim // 2:, : dim // 2] = haar(rng, dim // 2)
+        return m
+    if base == "cs":
+        d = dim // 2
+        theta = {"0": np.zeros(d), "pi4": np.full(d, np.pi / 4), "pi2": np.full(d, np.pi / 2),
+                 "mixed": rng.choice(np.array([0.0, np.pi / 4, np.pi / 2]), d)}[par]
+        c, s = np.diag(np.cos(theta)), np.diag(np.sin(theta))
+        mid = np.block([[c, -s], [s, c]]).astype(complex)
+        if n == 1:
+            return mid
+        return blockdiag(haar(rng, d), haar(rng, d)) @ mid @ blockdiag(haar(rng, d), haar(rng, d))
+    raise ValueError(name)
+
+
+def div_phase(tag, seed):
+    if tag == "e":
+        import cmath
+        return cmath.exp(1j * (0.3 + (seed % 997) / 997.0 * 5.5))
+    return {"1": 1.0, "-1": -1.0, "i": 1j, "-i": -1j}[tag]
+
+
+def div_cast(u, etype):
+    """The matrix `u` (complex128) in element-type form `etype`; None when the form cannot hold it."""
+    import numpy as np
+    real = not np.any(u.imag != 0)
+    integral = real and np.array_equal(u.real, np.round(u.real))
+    if integral:
+        nat = np.round(u.real).astype(np.int64)
+    elif real:
+        nat = u.real.copy()
+    else:
+        nat = u.copy()
+    if etype == "c128":
+        return u.copy()
+    if etype == "list":
+        return nat.tolist()
+    if etype == "mixedlist":     # as a user types S or Y (x) Z: ints where the entry is an integer, complex elsewhere
+        if real:
+            return None
+        return [[int(round(v.real)) if v.imag == 0 and v.real == round(v.real) else complex(v) for v in row] for row in u]
+    if etype == "tuple":
+        return tuple(tuple(r) for r in nat.tolist())
+    if etype == "rows":
+        return [np.array(r) for r in nat]
+    if etype == "npscalars":
+        return [[v for v in r] for r in nat]
+    if etype == "int64":
+        return nat if integral else None
+    if etype == "f64":
+        return u.real.copy() if real else None
+    if etype == "f16":
+        return u.real.astype(np.float16) if real else None
+    if etype == "f32":
+        return u.real.astype(np.float32) if real else None
+    if etype == "c64":
+        return u.astype(np.complex64)
+    if etype == "negzero-f64":
+        if not real:
+            return None
+        a = u.real.copy()
+        a[a == 0] = -0.0
+        return a if np.any(a == 0) else None
+    if etype == "negzero-c128":
+        re, im = u.real.copy(), u.imag.copy()
+        re[re == 0] = -0.0
+        im[im == 0] = -0.0
+        a = np.empty(u.shape, dtype=complex)
+        a.real, a.imag = re, im
+        return a
+    if etype == "npmatrix":
+        import warnings
+        with warnings.catch_warnings():
+            warnings.simplefilter("ignore")
+            return np.matrix(nat)
+    if etype == "fortran":
+        return np.asfortranarray(nat)
+    if etype == "readonly":
+        a = nat.copy()
+        a.setflags(write=False)
+        return a
+    if etype == "strided":
+        big = np.zeros((2 * len(u), 2 * len(u)), dtype=nat.dtype)
+        big[::2, ::2] = nat
+        return big[::2, ::2]
+    raise ValueError(etype)
+
+
+def div_fingerprint(obj):
+    """bytes / dtype / element types of an input object (to detect that the library wrote into the caller's data)."""
+    import numpy as np
+    if isinstance(obj, np.ndarray):
+        return ("nd", type(obj).__name__, str(obj.dtype), obj.shape, np.array(obj).tobytes())
+    if isinstance(obj, (list, tuple)):
+        return (type(obj).__name__,) + tuple(div_fingerprint(v) for v in obj)
+    return (type(obj).__name__, repr(obj))
+
+
+def div_input(s):
+    """(ideal complex128 matrix = the value handed in, the object handed in, exact?) of a spec; None if not applicable."""
+    import numpy as np
+    u = div_matrix(s["matrix"], s["n"], s["seed"])
+    ph = div_phase(s.get("phase", "1"), s["seed"])
+    if ph != 1.0:
+        u = u * ph
+    u = u + 0.0                      # no negative zeros from the phase multiplication
+    obj = div_cast(u, s["etype"])
+    if obj is None:
+        return None
+    val = np.array(obj, dtype=complex)
+    exact = bool(np.abs(val.conj().T @ val - np.eye(len(val))).max() < 1e-12)
+    if s["etype"] not in DIV_REDUCED and not np.array_equal(val, u):
+        raise RuntimeError("form %r does not hold the matrix exactly" % s["etype"])
+    return val, obj, exact
+
+
+def div_call(qu, g, dec, iso, a2, call):
+    import numpy as np
+    if call == "pos":
+        return qu.unitary(g, dec, iso, a2)
+    if call == "kw":
+        return qu.unitary(gate=g, decomposition=dec, iso=iso, apply_a2=a2)
+    if call == "kw-rev":
+        return qu.unitary(apply_a2=a2, iso=iso, decomposition=dec, gate=g)
+    if call == "mixed":
+        return qu.unitary(g, dec, apply_a2=a2, iso=iso)
+    if call == "mixed2":
+        return qu.unitary(g, dec, iso, apply_a2=a2)
+    if call == "min":            # only the arguments that differ from the defaults, by keyword
+        kw = {}
+        if dec != "qsd":
+            kw["decomposition"] = dec
+        if iso:
+            kw["iso"] = iso
+        if not a2:
+            kw["apply_a2"] = False
+        return qu.unitary(g, **kw)
+    if call == "build-pos":
+        return qu.build_unitary(np.asarray(g), dec, iso)
+    if call == "build-kw":
+        return qu.build_unitary(gate=np.asarray(g), iso=iso, decomposition=dec)
+    if call == "build-min":
+        kw = {}
+        if dec != "qsd":
+            kw["decomposition"] = dec
+        if iso:
+            kw["iso"] = iso
+        return qu.build_unitary(np.asarray(g), **kw)
+    raise ValueError(call)
+
+
+def div_embed(u, idx, hq):
+    """u on host qubits idx (idx[k] carries bit k of u's index), identity on the other host qubits."""
+    import numpy as np
+    n = len(idx)
+    out = np.zeros((2 ** hq, 2 ** hq), dtype=complex)
+    mask = sum(1 << q for q in idx)
+    for b in range(2 ** hq):
+        j = sum(((b >> q) & 1) << k for k, q in enumerate(idx))
+        rest = b & ~mask
+        for jp in range(2 ** n):
+            bp = rest | sum(((jp >> k) & 1) << q for k, q in enumerate(idx))
+            out[bp, b] = u[jp, j]
+    return out
+
+
+def div_host(host, n, seed, second=False):
+    """(QuantumCircuit, qargs as handed to qiskit, global indices) for host form `host`: hq = n + 3 qubits, the qubit list is
+    permuted, non-ascending and non-contiguous."""
+    import random
+    from qiskit import QuantumCircuit, QuantumRegister
+    hq = n + 3
+    r = random.Random(seed * 7 + (13 if second else 0))
+    while True:
+        idx = r.sample(range(hq), n)
+        if n == 1 or (idx != sorted(idx) and max(idx) - min(idx) >= n):
+            break
+    if host == "ints":
+        return QuantumCircuit(hq), list(idx), idx
+    if host == "qubits":
+        qc = QuantumCircuit(QuantumRegister(2, "a"), QuantumRegister(hq - 2, "b"))
+        return qc, [qc.qubits[i] for i in idx], idx
+    if host == "regs":        # registers declared in another order than they are used; the target register in the middle
+        t, anc, xx = QuantumRegister(n, "t"), QuantumRegister(2, "anc"), QuantumRegister(1, "x")
+        qc = QuantumCircuit(anc, t, xx)
+        if second:
+            qargs = [xx[0], anc[1], t[0]][:n]
+        else:
+            qargs = list(t[::-1]) if seed % 2 else t
+        return qc, qargs, [qc.find_bit(q).index for q in qargs]
+    raise ValueError(host)
+
+
+def div_use(circ, val, s):
+    """(operator, ideal, column selector, to_gate refusals) of the way the returned circuit is used."""
+    import numpy as np
+    from qiskit.exceptions import QiskitError
+    from qiskit.quantum_info import Operator
+    n, iso, dec, use = s["n"], s["iso"], s["dec"], s.get("use", "plain")
+    lead = 2 ** (n - iso) if dec != "qr" else 2 ** n
+    if use == "plain":
+        return Operator(circ).data, val, list(range(lead)), []
+    if use == "inverse":
+        return Operator(circ.inverse()).data, val.conj().T, list(range(2 ** n)), []
+    host, qargs, idx = div_host(s["host"], n, s["seed"])
+    hq = host.num_qubits
+    ideal = div_embed(val, idx, hq)
+    # build_unitary appends its sub-circuits with to_instruction() (the two-qubit leaf "qsd2q", the multiplexers) and the QR
+    # circuit holds one appended as a plain circuit (_undo_mcxs): qiskit's to_gate() refuses such circuits from n = 3 on (all
+    # of QR).  Not part of the property (operator equality): the refusal is counted and the Instruction used instead.
+    refused = []
+
+    def conv(c):
+        try:
+            return c.to_gate()
+        except QiskitError as e:       # "... is not a gate instruction": recorded, the Instruction is used instead
+            refused.append(str(e))
+            return c.to_instruction()
+    if use == "to_gate":
+        host.append(conv(circ), qargs)
+    elif use == "to_instruction":
+        host.append(circ.to_instruction(), qargs)
+    elif use == "compose":
+        host = host.compose(circ, qargs)
+    elif use == "compose-inplace":
+        host.compose(circ, qargs, inplace=True)
+    elif use == "append":
+        host.append(circ, qargs)
+    elif use == "inverse-on-host":
+        host.append(conv(circ.inverse()), qargs)
+        ideal = div_embed(val.conj().T, idx, hq)
+    elif use in ("gate-twice", "copy-then-both"):
+        _, qargs2, idx2 = div_host(s["host"], n, s["seed"], second=True)
+        if s["host"] == "qubits":
+            qargs2 = [host.qubits[i] for i in idx2]
+        elif s["host"] == "regs":
+            qargs2 = [host.qubits[i] for i in idx2]
+        if use == "gate-twice":
+            g = conv(circ)
+            host.append(g, qargs)
+            host.append(g, qargs2)
+        else:
+            c2 = circ.copy()
+            host.append(conv(c2), qargs)
+            host.append(circ.to_instruction(), qargs2)
+        ideal = div_embed(val, idx2, hq) @ ideal
+    else:
+        raise ValueError(use)
+    if use in ("gate-twice", "copy-then-both", "inverse-on-host") or iso == 0 or dec == "qr":
+        cols = list(range(2 ** hq))
+    else:
+        cols = [b for b in range(2 ** hq) if sum(((b >> q) & 1) << k for k, q in enumerate(idx)) < lead]
+    return Operator(host).data, ideal, cols, refused
+
+
+def div_eval(s, disable_a2=False):
+    """input-diversity spec -> result dict (never raises)."""
+    sys.setrecursionlimit(10000)
+    try:
+        import numpy as np
+        import warnings
+        inp = div_input(s)
+        if inp is None:
+            return {"skipped": "form not applicable"}
+        val, obj, exact = inp
+        n, dec, iso, a2 = s["n"], s["dec"], s["iso"], s["a2"]
+        before = div_fingerprint(obj)
+        rec, top, depth = [], [], [0]
+        res = {"spec": s, "exact": exact}
+        try:
+            with warnings.catch_warnings():
+                warnings.simplefilter("ignore")
+                with instrumented(rec, disable_a2) as qu:
+                    orig = qu.build_unitary
+
+                    def build_top(*a, **k):
+                        depth[0] += 1
+                        try:
+                            c = orig(*a, **k)
+                        finally:
+                            depth[0] -= 1
+                        if depth[0] == 0:
+                            top.append(c)
+                        return c
+                    qu.build_unitary = build_top
+                    try:
+                        circ = div_call(qu, obj, dec, iso, a2, s.get("call", "pos"))
+                        rec1 = list(rec)
+                        circ_again = div_call(qu, obj, dec, iso, a2, s.get("call", "pos")) if s.get("use") == "twice" else None
+                    finally:
+                        qu.build_unitary = orig
+        except Exception as e:  # noqa: BLE001  qclib raised
+            import traceback
+            res["raised"] = f"{type(e).__name__}: {e}"
+            res["exc_type"] = type(e).__name__
+            res["tb"] = traceback.format_exc()[-800:]
+            return res
+        res["mutated"] = div_fingerprint(obj) != before
+        try:
+            measure_plain(res, circ, rec1, val, n, dec, iso)
+        except Exception as e:  # noqa: BLE001  a lazily built definition (qiskit UCGate / UnitaryGate) raised under Operator()
+            import traceback
+            tb = traceback.format_exc()
+            res["op_raised"] = f"{type(e).__name__}: {e}"
+            res["op_exc_type"] = type(e).__name__
+            res["op_in_uc"] = "generalized_gates/uc.py" in tb
+            res["tb"] = tb[-800:]
+            blocks = [b for r in rec1 if r[0] == "_unitary" and r[2][0].shape == (2, 2) for b in r[2]]
+            res["blocks_err"] = max([float(np.abs(b.conj().T @ b - np.eye(2)).max()) for b in blocks] or [0.0])
+            return res
+        use = s.get("use", "plain")
+        if use == "twice":
+            res2 = {}
+            measure_plain(res2, circ_again, rec[len(rec1):], val, n, dec, iso)
+            res["err_use"] = res2["err"]
+        elif use != "plain":
+            try:
+                op, ideal, cols, refused = div_use(circ, val, s)
+                res["err_use"] = float(np.abs(op[:, cols] - ideal[:, cols]).max())
+                res["to_gate_refused"] = len(refused)
+            except Exception as e:  # noqa: BLE001  qiskit refused the returned circuit in this use
+                import traceback
+                res["use_raised"] = f"{type(e).__name__}: {e}"
+                res["use_exc_type"] = type(e).__name__
+                res["tb"] = traceback.format_exc()[-800:]
+        if s.get("tie") and top and not disable_a2:
+            if dec == "qr":
+                if n <= 3:
+                    res["tie_op"] = {"op": "qr", "n": n, "pairs": [[r[1], r[2]] for r in rec1 if r[0] == "rowcol"]}
+                    res["tie_lines"] = qr_lines(top[0])
+            else:
+                res["tie_op"] = {"op": "build", "n": n, "dec": dec, "iso": iso, "tape": tape_of(rec1)}
+                res["tie_lines"] = shape_lines(top[0]) + ["tape-left 0 ;"]
+        return res
+    except Exception:  # noqa: BLE001  harness trouble must not look like a violation
+        import traceback
+        return {"harness_exc": traceback.format_exc()[-1500:], "spec": s}
+
+
+def div_tag(s):
+    return f"{s['matrix']}*{s.get('phase', '1')}:{s['etype']}:{s.get('call', 'pos')}:{s.get('use', 'plain')}" + \
+        (f"@{s['host']}" if s.get("host") else "")
+
+
+def div_replay(s):
+    d = {"call": "qclib.unitary.unitary / build_unitary (input-diversity case)", "div": s, "n": s["n"], "decomposition": s["dec"],
+         "iso": s["iso"], "apply_a2": s["a2"],
+         "how": "tools/props/c02.py: val, obj, _ = div_input(spec); circ = div_call(qclib.unitary, obj, dec, iso, apply_a2, spec['call']); "
+                "compare per div_use(circ, val, spec)"}
+    if s["n"] <= 2:
+        try:
+            d["U"] = [[[float(v.real), float(v.imag)] for v in row] for row in div_input(s)[0]]
+        except Exception:  # noqa: BLE001
+            pass
+    return d
+
+
+def div_judge(ctx, s, res):
+    if res is None or "harness_exc" in res:
+        raise RuntimeError("harness exception in input-diversity case %r: %s" % (s, (res or {}).get("harness_exc")))
+    if "skipped" in res:
+        return
+    n, dec, iso, a2 = s["n"], s["dec"], s["iso"], s["a2"]
+    tag = div_tag(s)
+    key = f"unitary-div:{dec}:a2={int(a2)}:iso={iso}:n={n}:{tag}:{s['seed'] & 0xffff:x}"
+    rep = div_replay(s)
+    # float16 / float32 / complex64: unitary() promotes them to double, so a reduced-precision array whose up-cast value is
+    # exactly unitary is an ordinary valid input at every n, decomposition, iso and A.2 setting (1e-7, no exception); only
+    # rounded entries (up-cast value not unitary) fall under the reduced-precision rule
+    reduced = s["etype"] in DIV_REDUCED and not res.get("exact", True)
+    ctx.count(f"diversity:oracle:{dec}")
+    if "raised" in res:
+        if reduced and res["exc_type"] in ("ValueError", "QiskitError") and "unitary" in res["raised"]:
+            # the rejection unitary() documents ("The matrix must be unitary.") or the same verdict of a qiskit constructor on an
+            # intermediate factor computed in single precision ("Input matrix is not unitary." / "A controlled gate is not unitary.")
+            ctx.count(f"diversity:reduced-precision:{s['etype']}:{dec}:rejected-{res['exc_type']}")
+            ctx.ok(key + ":rejected", nontrivial=False)
+            return
+        ctx.fail(f"unitary-raises:{dec}:a2={int(a2)}:iso={iso}:n={n}:div:{tag}",
+                 "qclib raised on a valid unitary (form %s, call %s): %s" % (s["etype"], s.get("call", "pos"), res["raised"]),
+                 dict(rep, traceback=res.get("tb")))
+        return
+    if "op_raised" in res:
+        if reduced and res["op_exc_type"] in ("ValueError", "QiskitError") and "unitary" in res["op_raised"]:
+            ctx.count(f"diversity:reduced-precision:{s['etype']}:{dec}:rejected-at-definition-{res['op_exc_type']}")
+            ctx.ok(key + ":rejected", nontrivial=False)
+        elif dec == "csd" and res["op_in_uc"] and res["blocks_err"] <= 1e-12:
+            ctx.fail(f"unitary-ucgate-kernel:raises:iso={iso}:n={n}:div:{tag}",
+                     f"qiskit UCGate kernel: the definition of a UCGate of the returned circuit raises {res['op_raised']} although every 2x2 "
+                     f"block handed to UCGate is unitary to {res['blocks_err']:.1e}", dict(rep, traceback=res.get("tb")))
+        else:
+            ctx.fail(f"unitary-operator-raises:{dec}:a2={int(a2)}:iso={iso}:n={n}:div:{tag}",
+                     f"Operator(circuit) of the returned circuit raised {res['op_raised']}", dict(rep, traceback=res.get("tb")))
+        return
+    if "use_raised" in res:
+        ctx.fail(f"unitary-use-raises:{dec}:a2={int(a2)}:iso={iso}:n={n}:{tag}",
+                 f"the circuit returned by unitary() could not be used as {s.get('use')}: {res['use_raised']}", dict(rep, traceback=res.get("tb")))
+        return
+    if res.get("to_gate_refused"):
+        ctx.count(f"diversity:to_gate:{dec}:unsupported-form-raises-QiskitError")
+    if res.get("tie_op"):
+        ctx.tie(res["tie_op"], res["tie_lines"], label=f"diversity {dec} iso={iso} n={n} {tag}")
+        if dec != "qr":
+            ctx.tie({"op": "a2", "dec": dec, "a2": bool(a2) and not s.get("call", "pos").startswith("build")},
+                    [f"a2 {int(res['a2_called'])} ;"], label=f"diversity a2 decision {dec} a2={a2} {tag}")
+    if dec != "qr" and not reduced:
+        ctx.assumption_checks += res["n_cossin"] + res["n_demux"]
+        if res["cs_err"] > 1e-8:
+            ctx.fail(f"assumption:cossin-spec:n={n}:div:{tag}", f"scipy cossin specification violated by {res['cs_err']:.2e}", rep,
+                     kind="assumption")
+    if res.get("mutated"):
+        ctx.fail(f"unitary-mutates-input:{dec}:n={n}:{s['etype']}:{s['matrix']}",
+                 "the caller's matrix object was modified by the synthesis (bytes / dtype / element types differ afterwards)", rep)
+        return
+    want_a2 = dec == "qsd" and a2 and not s.get("call", "pos").startswith("build")
+    if res["a2_called"] != want_a2:
+        ctx.fail(f"a2-decision:{dec}:a2={int(a2)}:div:{s.get('call', 'pos')}",
+                 f"_apply_a2 called={res['a2_called']}, expected {want_a2} (call form {s.get('call', 'pos')})", rep)
+        return
+    if res["a2_raised"]:
+        ctx.count("diversity:a2-fallback-taken")
+    rerun = lambda: div_eval(dict(s, use="plain", tie=False), disable_a2=True)   # noqa: E731
+    if reduced:
+        worst = max(res["err"], res.get("err_use", 0.0))
+        if worst > 1e-5 and classify_kernel(ctx, res, dec, want_a2, iso, n, "div:" + tag, rerun, rep):
+            return           # single-precision noise on the blocks is exactly what the UCGate kernel finding needs
+        if worst > 1e-3:
+            ctx.fail(key, f"reduced-precision input ({s['etype']}): silent wrong result, max |Operator - upcast(U)| = {worst:.3e}", rep)
+        elif worst > 1e-5:
+            ctx.count(f"diversity:reduced-precision:{s['etype']}:{dec}:degraded-1e-5..1e-3")
+            ctx.ok(key, nontrivial=False)
+        else:
+            ctx.count(f"diversity:reduced-precision:{s['etype']}:{dec}:accepted-correct-to-1e-5")
+            ctx.ok(key, nontrivial=n >= 2)
+        return
+    if classify_kernel(ctx, res, dec, want_a2, iso, n, "div:" + tag, rerun, rep):
+        return
+    if res["err"] > TOL:
+        ctx.fail(key, f"max |Operator(circuit) - U| over the leading {2 ** (n - iso) if dec != 'qr' else 2 ** n} columns = {res['err']:.3e} "
+                      f"(matrix {s['matrix']}, phase {s.get('phase', '1')}, element type {s['etype']}, call form {s.get('call', 'pos')})",
+                 dict(rep, observed_err=res["err"]))
+    elif res.get("err_use", 0.0) > TOL:
+        ctx.fail(key, f"the returned circuit is right stand-alone ({res['err']:.1e}) but used as {s.get('use')}"
+                      f"{' on host form ' + s['host'] if s.get('host') else ''} deviates by {res['err_use']:.3e} from the ideal "
+                      "(U on the listed qubits in the listed order, identity elsewhere / U^dagger / the same operator twice)",
+                 dict(rep, observed_err=res["err_use"]))
+    else:
+        ctx.ok(key, nontrivial=n >= 2, sample={"n": n, "matrix": s["matrix"], "etype": s["etype"], "call": s.get("call", "pos"),
+                                                "use": s.get("use", "plain"), "dec": dec, "iso": iso, "a2": a2, "err": res["err"]})
+
+
+def div_spec(ctx, matrix, n, etype, dec, iso, a2, phase="1", call="pos", use="plain", host=None, tie=None, seed=None):
+    s = {"matrix": matrix, "n": n, "seed": ctx.rng.getrandbits(32) if seed is None else seed, "phase": phase, "etype": etype, "dec": dec,
+         "iso": iso, "a2": a2, "call": call, "use": use, "host": host}
+    s["tie"] = (use == "plain") if tie is None else tie
+    return s
+
+
+def div_specs_etypes(ctx):
+    """family 1 (element types) x family 5 (n = 1, 2, 3; n = 4 once per form family)."""
+    out = []
+    mats = {1: ["perm", "pm1", "s_diag", "yz", "hadamard", "real_orth", "real_det_m1", "haar"],
+            2: DIV_INT_MATS + ["s_diag", "yz", "monomial_pmi", "hadamard", "complex_hadamard", "real_orth", "real_det_m1"],
+            3: DIV_INT_MATS + ["s_diag", "yz", "monomial_pmi", "hadamard", "real_orth", "real_det_m1", "haar"],
+            4: ["perm", "hadamard", "real_orth"]}
+    k = ctx.rng.randrange(3)
+    for n in (1, 2, 3, 4):
+        for mi, mat in enumerate(mats[n]):
+            seed = ctx.rng.getrandbits(32)
+            for ei, et in enumerate(DIV_ETYPES):
+                if n == 4 and et not in ("list", "int64", "f64", "f16", "f32", "c64", "negzero-f64"):
+                    continue
+                if et == "c128" and mat == "haar":
+                    continue
+                phases = ["1"]
+                if mat in DIV_INT_MATS + ["hadamard"] and et in ("list", "int64", "f64", "tuple", "f16", "f32") and n <= 3:
+                    phases.append("-1")      # all non-zero entries negative, zero imaginary part
+                if mat in ("perm", "cnot") and et in ("list", "mixedlist", "c64") and n <= 3:
+                    phases.append("i")       # purely imaginary entries: [[0, 1j], [1j, 0]]
+                for ph in phases:
+                    k += 1
+                    # the integer / real forms are the ones that reach the kernels in an unusual dtype: every configuration;
+                    # the others rotate through (qsd, A.2), (qsd, no A.2), csd
+                    full = et in ("list", "int64", "f64", "negzero-f64", "f32", "c64") and n <= 3
+                    cfgs = DIV_CONFIGS if full else [DIV_CONFIGS[k % 3]]
+                    for ci, (dec, a2) in enumerate(cfgs):
+                        iso = (k + ci) % n
+                        out.append(div_spec(ctx, mat, n, et, dec, iso, a2, phase=ph, seed=seed))
+                    if mat in ("hadamard", "complex_hadamard", "real_orth", "real_det_m1", "haar") and n <= 3 \
+                            and et not in ("int64", "mixedlist") \
+                            and (n <= 2 or et in ("list", "f64", "f16", "f32", "tuple", "c64")):
+                        out.append(div_spec(ctx, mat, n, et, "qr", 0, False, phase=ph, seed=seed))   # no zero entries
+                    if mat == "hadamard" and n == 4 and et in DIV_REDUCED:      # entries +-0.25: exactly unitary in half precision
+                        out.append(div_spec(ctx, mat, n, et, "qr", 0, False, phase=ph, seed=seed))
+    out = [s for s in out if div_applicable(s)]
+    for s in out:
+        ctx.count(f"diversity:etype:{s['etype']}:{s['dec']}")
+        ctx.count(f"diversity:n={s['n']}")
+    return out
+
+
+def div_specs_structure(ctx):
+    """families 2 and 3: scale and sign / phase structure, every structured family times the global phases."""
+    out = []
+    mats = ["near_id@1e-3", "near_id@1e-4", "near_id@1e-5", "near_id@1e-6", "near_perm@1e-3", "near_perm@1e-5", "near_perm@1e-6",
+            "block_tl", "block_br", "subtree", "dft", "hadamard", "complex_hadamard", "rep_eig", "tensor_h_lsb", "monomial",
+            "monomial_pmi", "perm", "yz", "s_diag", "pm1", "real_det_m1", "anti_block", "iy_top", "cs@0", "cs@pi4", "cs@pi2", "cs@mixed",
+            "x_top", "swap"]
+    k = ctx.rng.randrange(60)
+    for n in (1, 2, 3, 4):
+        for mat in mats:
+            if n == 1 and mat in ("rep_eig", "tensor_h_lsb", "block_tl", "block_br", "anti_block", "swap", "iy_top"):
+                continue
+            if n == 4 and mat not in ("near_id@1e-5", "near_perm@1e-6", "subtree", "complex_hadamard", "rep_eig", "monomial_pmi",
+                                      "anti_block", "cs@mixed", "block_br"):
+                continue
+            seed = ctx.rng.getrandbits(32)
+            for ph in ("1", "-1", "i", "-i", "e"):
+                if n == 4 and ph not in ("1", "i"):
+                    continue
+                k += 1
+                cfgs = DIV_CONFIGS if n in (2, 3) else [DIV_CONFIGS[k % 3]]     # n = 1: every decomposition is one UnitaryGate
+                for ci, (dec, a2) in enumerate(cfgs):
+                    if mat.startswith("near_") and a2 and not (ph == "1" or (ph == "i" and mat.endswith("@1e-5"))):
+                        continue     # the A.2 precision finding (K-C02-1) lives here: one phase per eps is enough to show it
+                    out.append(div_spec(ctx, mat, n, "c128", dec, (k + ci) % n, a2, phase=ph, seed=seed))
+                if mat in ("dft", "hadamard", "complex_hadamard", "real_det_m1") and n <= 2 + (ph == "1"):
+                    out.append(div_spec(ctx, mat, n, "c128", "qr", 0, False, phase=ph, seed=seed))
+            ctx.count(f"diversity:structure:{mat}")
+    out = [s for s in out if div_applicable(s)]
+    for s in out:
+        ctx.count(f"diversity:phase:{s['phase']}")
+        ctx.count(f"diversity:n={s['n']}")
+    return out
+
+
+def div_specs_calls(ctx):
+    """family 4a: every (decomposition, iso, apply_a2) at n = 1, 2, 3 in every way of passing the arguments."""
+    out = []
+    calls = ["pos", "kw", "kw-rev", "mixed", "mixed2", "min"]
+    for n in (1, 2, 3):
+        inputs = [("haar", "c128"), ("perm", "list"), ("hadamard", "f64")]
+        seeds = [ctx.rng.getrandbits(32) for _ in inputs]
+        k = ctx.rng.randrange(6)
+        for dec in ("qsd", "csd"):
+            for iso in range(n):
+                for a2 in (True, False):
+                    for call in calls:
+                        k += 1
+                        mat, et = inputs[k % 3]
+                        out.append(div_spec(ctx, mat, n, et, dec, iso, a2, call=call, seed=seeds[k % 3]))
+                    for call in ("build-pos", "build-kw", "build-min"):
+                        if not a2:
+                            k += 1
+                            mat, et = inputs[k % 3]
+                            out.append(div_spec(ctx, mat, n, "int64" if et == "list" else et, dec, iso, False, call=call, seed=seeds[k % 3]))
+        if n <= 2:
+            for call in calls + ["build-pos", "build-kw", "build-min"]:
+                for a2 in ((True, False) if not call.startswith("build") else (False,)):
+                    out.append(div_spec(ctx, "hadamard", n, "f64", "qr", 0, a2, call=call, seed=seeds[2]))
+    for s in out:
+        ctx.count(f"diversity:call:{s['call']}:{s['dec']}")
+    return out
+
+
+def div_specs_uses(ctx):
+    """family 4b: what callers do with the returned circuit."""
+    out = []
+    k = ctx.rng.randrange(12)
+    hosted = ["to_gate", "to_instruction", "compose", "compose-inplace", "append", "inverse-on-host", "gate-twice", "copy-then-both"]
+    for n in (1, 2, 3):
+        inputs = [("haar", "c128"), ("perm", "list"), ("hadamard", "f64"), ("monomial_pmi", "c128")]
+        seeds = [ctx.rng.getrandbits(32) for _ in inputs]
+        for use in hosted:
+            for host in ("ints", "qubits", "regs"):
+                for dec, a2 in DIV_CONFIGS:
+                    k += 1
+                    mat, et = inputs[k % 4]
+                    iso = (k // 4) % n if use in ("to_gate", "to_instruction", "compose", "compose-inplace", "append") else 0
+                    out.append(div_spec(ctx, mat, n, et, dec, iso, a2, call=("pos", "kw", "min")[k % 3], use=use, host=host,
+                                        seed=seeds[k % 4]))
+            if n <= 2:
+                out.append(div_spec(ctx, "hadamard", n, "f64", "qr", 0, False, use=use, host=("ints", "qubits", "regs")[k % 3],
+                                    seed=seeds[2]))
+        for use in ("inverse", "twice"):
+            for ii, (mat, et) in enumerate(inputs):
+                for dec, a2 in DIV_CONFIGS:
+                    out.append(div_spec(ctx, mat, n, et, dec, 0 if use == "inverse" else (ii % n), a2, use=use, seed=seeds[ii]))
+            if n <= 2:
+                out.append(div_spec(ctx, "hadamard", n, "f64", "qr", 0, False, use=use, seed=seeds[2]))
+    for s in out:
+        ctx.count(f"diversity:use:{s['use']}" + (f"@{s['host']}" if s["host"] else ""))
+    return out
+
+
+def diversity_specs(ctx):
+    return div_specs_etypes(ctx) + div_specs_structure(ctx) + div_specs_calls(ctx) + div_specs_uses(ctx)
+
+
+def div_applicable(s):
+    """the element-type form can hold the matrix (an int64 array cannot hold S, a real dtype cannot hold i * P, ...)."""
+    import numpy as np
+    u = div_matrix(s["matrix"], s["n"], s["seed"]) * div_phase(s.get("phase", "1"), s["seed"])
+    if s["dec"] == "qr" and np.abs(u).min() < 1e-6:
+        return False               # QR is stated for unitaries without zero entries
+    return div_cast(u + 0.0, s["etype"]) is not None
+
+
+# ---- direct calls of qclib.gates.ucr.ucr in the forms unitary.py makes / could make -----------------------------------
+
+def div_ucr_angles(form, values):
+    import numpy as np
+    if form == "list":
+        return list(values)
+    if form == "tuple":
+        return tuple(values)
+    if form == "i64":
+        return np.array(values, dtype=np.int64)
+    if form == "f32":
+        return np.array(values, dtype=np.float32)
+    if form == "f64":
+        return np.array(values, dtype=np.float64)
+    if form == "list-f64":       # what unitary.py hands over: list(2 * theta)
+        return list(np.array(values, dtype=np.float64))
+    if form == "list-f32":       # the same when the matrix came in as complex64 / float32
+        return list(np.array(values, dtype=np.float32))
+    if form == "list-i64":
+        return list(np.array(values, dtype=np.int64))
+    raise ValueError(form)
+
+
+def div_ucr_one(ctx, s):
+    """one direct ucr call: operator vs the multiplexer (CZ/CX . Mux when last_control=False), gate list vs Model/Ucr.lean."""
+    import numpy as np
+    from flatten import flatten, to_lines
+    from qiskit.circuit.library import RYGate, RZGate, CXGate, CZGate
+    from qiskit.quantum_info import Operator
+    from qclib.gates.ucr import ucr
+    axis, ent, last, call = s["axis"], s["ent"], s["last"], s["call"]
+    ang = div_ucr_angles(s["form"], s["values"])
+    up = [float(v) for v in ang]          # the value handed in (float32 rounds the literals)
+    k = int(math.log2(len(up)))
+    key = f"ucr-div:{axis}:{ent}:{int(last)}:k={k}:{s['form']}:{call}:{s['name']}"
+    rep = {"call": "qclib.gates.ucr.ucr (input-diversity case, direct call as unitary.py makes it)", "div_ucr": s}
+    rg, cg = (RYGate if axis == "Y" else RZGate), (CXGate if ent == "CX" else CZGate)
+    before = div_fingerprint(ang)
+    try:
+        if call == "pos":
+            circ = ucr(rg, ang, cg, last)
+        elif call == "kw":
+            circ = ucr(last_control=last, c_gate=cg, angles=ang, r_gate=rg)
+        else:                                 # "min": defaults left out
+            kw = {}
+            if ent != "CX":
+                kw["c_gate"] = cg
+            if not last:
+                kw["last_control"] = False
+            circ = ucr(rg, ang, **kw)
+    except Exception as e:  # noqa: BLE001
+        ctx.fail(f"ucr-raises:{axis}:{ent}:{int(last)}:k={k}:{s['form']}:{call}", f"ucr raised {type(e).__name__}: {e} on angles {ang!r}", rep)
+        return
+    if div_fingerprint(ang) != before:
+        ctx.fail(f"ucr-mutates-input:{s['form']}:k={k}", "the caller's angle object was modified", rep)
+        return
+    ctx.tie({"op": "ucr", "axis": axis, "ent": ent, "k": k, "last": bool(last), "angles": up}, to_lines(flatten(circ)),
+            label=f"diversity ucr {axis} {ent} last={last} k={k} {s['form']} {s['name']}", driver="Drivers/C13.lean")
+    full = circ
+    if k >= 1 and not last:
+        full = circ.copy()
+        (full.cx if ent == "CX" else full.cz)(k, 0)
+    ideal = np.zeros((2 * len(up), 2 * len(up)), dtype=complex)
+    for j, t in enumerate(up):
+        c, sn = math.cos(t / 2), math.sin(t / 2)
+        ideal[2 * j:2 * j + 2, 2 * j:2 * j + 2] = [[c, -sn], [sn, c]] if axis == "Y" else np.diag([np.exp(-0.5j * t), np.exp(0.5j * t)])
+    err = float(np.abs(Operator(full).data - ideal).max())
+    if err > TOL:
+        ctx.fail(key, f"max |Operator(ucr) - multiplexer| = {err:.3e} for angles {ang!r}", dict(rep, observed_err=err))
+    else:
+        ctx.ok(key, nontrivial=k >= 1, sample={"ucr": axis + ent, "last": last, "form": s["form"], "angles": up[:4], "err": err})
+
+
+def from_leaves(leaves):
+    """angle list whose fully multiplexed (leaf) angles are `leaves` (inverse of ucr's kron([[.5,.5],[.5,-.5]], I) steps)."""
+    if len(leaves) == 1:
+        return list(leaves)
+    hh = len(leaves) // 2
+    a, b = from_leaves(leaves[:hh]), from_leaves(leaves[hh:])
+    return [p + q for p, q in zip(a, b)] + [p - q for p, q in zip(a, b)]
+
+
+def div_ucr_specs(ctx):
+    r = ctx.rng
+    pi = math.pi
+    out = []
+    combos = [("Y", "CZ", False), ("Y", "CX", True), ("Z", "CX", True), ("Z", "CX", False), ("Y", "CZ", True)]
+    i = r.randrange(30)
+    for k in range(0, 4):
+        m = 2 ** k
+        lists = []      # (name, values, admissible forms)
+        ints = ["list", "tuple", "i64", "list-i64", "f32", "f64"]
+        flts = ["list", "tuple", "f64", "list-f64", "f32", "list-f32"]
+        lists.append(("odd-ints", [1 + 2 * j for j in range(m)], ints))                # [1, 3, 5, 7]: every half-sum / -difference is an integer
+        lists.append(("tri-ints", [1 + j * (j + 1) // 2 for j in range(m)], ints))   # [1, 2, 4, 7]: half-integers from the first level on
+        lists.append(("rand-ints", [r.randint(-7, 7) or 3 for _ in range(m)], ints))
+        lists.append(("neg-ints", [-(2 + j) for j in range(m)], ints))
+        lists.append(("cs-range", [r.uniform(0.05, pi - 0.05) for _ in range(m)], flts))           # 2 theta of a generic cossin
+        lists.append(("above-2pi", [2 * pi + r.uniform(0.1, 6.0) for _ in range(m)], flts))
+        lists.append(("below-minus-2pi", [-2 * pi - r.uniform(0.1, 6.0) for _ in range(m)], flts))
+        lists.append(("mixed-periods", [r.choice([-4 * pi, -2 * pi, 0.0, 2 * pi, 4 * pi]) + r.uniform(0.2, 2.9) for _ in range(m)], flts))
+        lists.append(("all-2pi", [2 * pi] * m, ["list", "f64", "list-f64"]))                          # RY(2pi) = -I on every branch
+        lists.append(("all-minus-2pi", [-2 * pi] * m, ["list", "f64"]))
+        lists.append(("all-4pi", [4 * pi] * m, ["list", "f64"]))
+        lists.append(("pm-2pi-4pi", [r.choice([2 * pi, -2 * pi, 4 * pi, -4 * pi, 0.0]) for _ in range(m)], ["list", "tuple", "f64", "list-f64"]))
+        if k >= 1:
+            # Walsh-Hadamard sums / differences of the recursion hit exactly 0, 2pi, -2pi, 4pi, pi at the leaves
+            lists.append(("leaves-0-2pi", from_leaves([r.choice([0.0, 2 * pi, -2 * pi, 4 * pi, pi]) for _ in range(m)]), ["list", "f64", "list-f64"]))
+            lv = [0.0] * m
+            lv[r.randrange(m)] = 2 * pi
+            lists.append(("one-leaf-2pi", from_leaves(lv), ["list", "f64"]))
+            lists.append(("leaves-2pi-plus", from_leaves([2 * pi * r.choice([1, -1, 2]) + r.uniform(0.3, 2.5) for _ in range(m)]), ["list", "f64", "f32"]))
+        for name, vals, forms in lists:
+            for fi, form in enumerate(forms):
+                i += 1
+                # unitary.py's own form (RY, CZ, no last control) for every list x form; the others rotate
+                todo = [combos[0], combos[1 + i % 4]] if k <= 2 else [combos[i % 5]]
+                for axis, ent, last in todo:
+                    call = ("pos", "kw", "min")[(i + fi + (axis == "Z")) % 3]
+                    out.append({"axis": axis, "ent": ent, "last": last, "form": form, "values": vals, "call": call, "name": name})
+                    ctx.count(f"diversity:ucr:{form}")
+                    ctx.count(f"diversity:ucr-call:{call}")
+            ctx.count(f"diversity:ucr-angles:{name}")
+    return out
+
+
+def diversity_ucr(ctx):
+    for s in div_ucr_specs(ctx):
+        div_ucr_one(ctx, s)
+
+
 def run(ctx):
     run_tie(ctx)
     probe_findings(ctx)
     probe_call_forms(ctx)
     jobs = oracle_jobs(ctx, 5 if ctx.quick else 6, 4 if ctx.quick else 5, 2 if ctx.quick else 4) + boundary_jobs(ctx)
+    jobs = jobs + diversity_specs(ctx)          # input-diversity cases (dict specs) share the process pool
     for job, res in zip(jobs, run_jobs(jobs)):
-        judge(ctx, job, res)
+        (div_judge if isinstance(job, dict) else judge)(ctx, job, res)
+    diversity_ucr(ctx)
     flush_deferred(ctx)
     ctx.notes.append("QR is exercised only on unitaries whose entries all exceed 1e-6 in modulus (the property's own restriction)")
     ctx.notes.append("boundary families: block_near_equal@eps (eigenvalue cluster of width 1e-9..1e-3 in _compute_gates, either side of "
                      "the is_unitary_matrix test that selects the closest-unitary repair), cs_tiny@t (multiplexed RY combinations of "
                      "3e-9 / 3e-8 / 1e-6 around ucr's 1e-8 cut), tiny_entry@e (QR on a unitary whose smallest entry is 3e-6 / 1e-4)")
     ctx.notes.append("kernel specifications: cossin to 1e-8, eigen/demultiplexing to 1e-6, operator to 1e-7")
+    ctx.notes.append("input-diversity cases: identical values in another element type / call form / use are held to 1e-7 (global phase "
+                     "included) after classify_kernel; float16 / float32 / complex64 arrays whose up-cast value is exactly unitary are ordinary valid inputs at "
+                     "every n / decomposition / iso / A.2 (unitary() promotes them to double): 1e-7, any exception fails; rounded single-precision "
+                     "values (up-cast not unitary): a ValueError / QiskitError saying 'not unitary' or a result within 1e-5 of the up-cast "
+                     "matrix is accepted, > 1e-3 or any other exception type fails; QR only on matrices without zero entries.  qiskit's to_gate() refuses the circuits of unitary() from n = 3 on and every QR "
+                     "circuit (sub-circuits appended as plain Instructions): counted as diversity:to_gate:*:unsupported-form-raises-QiskitError, "
+                     "the Instruction is used instead.  near_id / near_perm @ eps = 1e-3 .. 1e-6 keep multiplexed angles a factor >= 100 above "
+                     "or exact rounding noise below ucr's 1e-8 cut (a dropped leaf costs <= 5e-9 each, < 1e-7 in total at n <= 4)")
 
 
 def search(ctx, hints):
@@ -887,14 +1818,22 @@ def search(ctx, hints):
         if op.get("op") == "qr":
             jobs.append(("unitary", op["n"], "haar", 1, "qr", 0, False))
     probe_findings(ctx)
-    jobs = jobs[:60] + oracle_jobs(ctx, 5, 4, 2)
+    jobs = jobs[:60] + oracle_jobs(ctx, 5, 4, 2) + diversity_specs(ctx)
     for job, res in zip(jobs, run_jobs(jobs)):
-        judge(ctx, job, res)
+        (div_judge if isinstance(job, dict) else judge)(ctx, job, res)
+    diversity_ucr(ctx)
     flush_deferred(ctx)
 
 
 def replay(ctx, payload):
     r = payload["replay"]
+    if r.get("div"):
+        div_judge(ctx, r["div"], div_eval(r["div"]))
+        flush_deferred(ctx)
+        return
+    if r.get("div_ucr"):
+        div_ucr_one(ctx, r["div_ucr"])
+        return
     if r.get("form"):
         probe_call_forms(ctx)
         return
